@@ -187,6 +187,7 @@ def run(ctx):
 
     for st, sub, payload in dtb[0].subtype_exprs:
         prem = [(expand_aliases(e0, pal), p0) for e0, p0 in logic.facts_as_premises(cfg.facts_at(cfg.node_of(st).id))]
+        prem += [(expand_aliases(e0, pal), p0) for e0, p0 in dtb[0].extra_conds.get(id(payload), [])]
         prem = [(e0, p0) for e0, p0 in prem if "tzinfo" in norm(e0)]
         if isinstance(payload, ast.Tuple):
             elts = [norm(expand_aliases(e.value if isinstance(e, ast.Starred) else e, pal)) for e in payload.elts]
